@@ -31,6 +31,9 @@ type dictItem struct{ K, V string }
 type dict struct {
 	Name  string
 	Items []dictItem
+	// WriteOnly: a private dictionary. The Fastly API lists it but does not give its items: the remote
+	// path declares the table without items
+	WriteOnly bool `json:",omitempty"`
 }
 type aclEntry struct {
 	IP      string
@@ -73,6 +76,10 @@ type vclSnippet struct {
 type condition struct{ Name, Statement, Type string }
 
 type resSet struct {
+	// PlanShape: how the Terraform plan is laid out: "" flat, "child-items" (ACL entries / dictionary items
+	// in a child module), "child-all" (everything in a child module), "two-services" (another service with
+	// decoy resources comes first; the same fetcher serves it first and is then pointed to ours with SetName)
+	PlanShape  string `json:",omitempty"`
 	Dicts      []dict
 	Acls       []acl
 	Backends   []backend
@@ -89,7 +96,7 @@ func main() {
 		ID:    "C20",
 		Level: "exploration",
 		Rule: "resource sets are generated as data (dictionaries, ACLs, backends, directors, header rules, response objects, VCL snippets, conditions) with names Fastly accepts and values over an alphabet weighted " +
-			"towards \" % %20 %u00e9 { } {\" \"} # // /* ; \\ newline CR tab and multibyte text; each set is turned into a Terraform plan JSON and fed to terraform.ParseStdin -> NewTerraformFetcher -> snippet.Fetch -> EmbedSnippets, " +
+			"towards \" % %20 %u00e9 { } {\" \"} # // /* ; \\ newline CR tab and multibyte text; each set is turned into a Terraform plan JSON and fed to terraform.ParseStdin -> NewTerraformFetcher -> snippet.Fetch -> EmbedSnippets (plan layouts: flat, entries / items in a child module, everything in nested child modules, a second service with decoy resources in front served first by the same fetcher; private write_only dictionaries on the API path; EmbedSnippets called twice must change nothing), " +
 			"and also handed to snippet.Fetch through a fake API fetcher. Every generated item is parsed with falco's parser and compared field by field with the source data (dictionary keys/values as decoded strings, " +
 			"ACL address/mask/negation, backend identifier and host, director members each naming a declared backend). non-trivial = a set with >=1 value containing a special character class; distinct by hash of the set",
 		Assumptions: []string{
@@ -199,8 +206,10 @@ func genSet(r *rand.Rand) resSet {
 			keys[key] = true
 			d.Items = append(d.Items, dictItem{key, randText(r, 24)})
 		}
+		d.WriteOnly = r.Intn(6) == 0
 		s.Dicts = append(s.Dicts, d)
 	}
+	s.PlanShape = []string{"", "", "child-items", "child-all", "two-services"}[r.Intn(5)]
 	for k := r.Intn(3); k > 0; k-- {
 		a := acl{Name: name(ident)}
 		for n := r.Intn(8); n > 0; n-- {
@@ -253,7 +262,7 @@ func genSet(r *rand.Rand) resSet {
 		s.Conditions = append(s.Conditions, c)
 	}
 	for k := r.Intn(3); k > 0; k-- {
-		h := header{Name: looseName(r), Action: []string{"set", "append", "delete", "regex", "regex_repeat"}[r.Intn(5)], Type: []string{"request", "cache", "response"}[r.Intn(3)],
+		h := header{Name: name(looseName), Action: []string{"set", "append", "delete", "regex", "regex_repeat"}[r.Intn(5)], Type: []string{"request", "cache", "response"}[r.Intn(3)],
 			Source: `"` + ident(r) + `"`, Destination: "http.X-" + ident(r), Regex: "^" + ident(r), Substitution: ident(r), IgnoreIfSet: r.Intn(3) == 0}
 		if r.Intn(2) == 0 {
 			// regular expression and substitution are arbitrary text (quotes, percent signs, braces)
@@ -292,6 +301,11 @@ func forcedSets() []resSet {
 		one("k", `a"b`), one(`k"x`, "v"), one("k", "%20"), one("%20", "v"), one("k", "100%"), one("k", "%"), one("k", "%u00e9"), one("k", "%zz"), one("k", "a\nb"), one("k", "a\rb"),
 		one("k", `{"x"}`), one("k", `"}`), one("k", `\`), one("k", `\"`), one("k", "# c"), one("k", "// c"), one("k", "/* c */"), one("k", ";"), one("", ""), one("é", "日本"), one("k", "\t"),
 		one("k", strings.Repeat("x", 9000)),
+		{Dicts: []dict{{Name: "api_keys", WriteOnly: true, Items: []dictItem{{"secret", "s"}}}, {Name: "redirects", Items: []dictItem{{"/a", "/b"}}}, {Name: "flags", Items: []dictItem{{"f", "1"}, {"g", "2"}}}}},
+		{Dicts: []dict{{Name: "redirects", Items: []dictItem{{"/a", "/b"}}}, {Name: "api_keys", WriteOnly: true}, {Name: "flags", Items: []dictItem{{"f", "1"}}}, {Name: "more_keys", WriteOnly: true}}},
+		{PlanShape: "child-items", Dicts: []dict{{Name: "redirects", Items: []dictItem{{"/a", "/b"}}}}, Acls: []acl{{Name: "internal", Entries: []aclEntry{{IP: "192.0.2.0", Subnet: "24"}, {IP: "10.0.0.1", Negated: true}}}}},
+		{PlanShape: "child-all", Dicts: []dict{{Name: "redirects", Items: []dictItem{{"/a", "/b"}}}}, Acls: []acl{{Name: "internal", Entries: []aclEntry{{IP: "192.0.2.0", Subnet: "24"}}}}, Backends: []backend{{Name: "origin", Address: "o.example.com"}}},
+		{PlanShape: "two-services", Dicts: []dict{{Name: "redirects", Items: []dictItem{{"/a", "/b"}}}}, Acls: []acl{{Name: "internal", Entries: []aclEntry{{IP: "192.0.2.0", Subnet: "24"}}}}, Backends: []backend{{Name: "origin", Address: "o.example.com"}}},
 		{Acls: []acl{{Name: "a"}}},
 		{Acls: []acl{{Name: "a", Entries: []aclEntry{{IP: "192.0.2.0", Subnet: "24"}, {IP: "192.0.2.1", Negated: true}, {IP: "10.0.0.0", Subnet: "0"}, {IP: "2001:db8::", Subnet: "32", Negated: true}, {IP: "::1", Subnet: "128"},
 			{IP: "1.2.3.4", Comment: "office \"main\""}, {IP: "1.2.3.5", Comment: "line1\nline2"}, {IP: "1.2.3.6", Comment: "50% } {"}, {IP: "1.2.3.7", Subnet: "32", Comment: "x;\"1.1.1.1\";"}}}}},
@@ -395,8 +409,28 @@ func planJSON(s resSet) []byte {
 	}
 	svc["acl"], svc["dictionary"], svc["backend"], svc["director"], svc["condition"], svc["header"], svc["response_object"], svc["snippet"] = acls, dicts, backends, directors, conds, headers, ros, snips
 	svc["vcl"] = []m{{"name": "main", "main": true, "content": "sub vcl_recv {\n#FASTLY RECV\n}\n"}}
-	resources = append([]m{{"provider_name": provider, "type": "fastly_service_vcl", "values": svc}}, resources...)
-	b, _ := json.Marshal(m{"planned_values": m{"root_module": m{"resources": resources}}})
+	service := m{"provider_name": provider, "type": "fastly_service_vcl", "values": svc}
+	var root m
+	switch s.PlanShape {
+	case "child-items":
+		root = m{"resources": []m{service}, "child_modules": []m{{"address": "module.cdn", "resources": resources}}}
+	case "child-all":
+		root = m{"resources": []m{}, "child_modules": []m{{"address": "module.cdn", "resources": []m{service}, "child_modules": []m{{"address": "module.cdn.module.data", "resources": resources}}}}}
+	case "two-services":
+		// the other service comes first and has a dictionary, an ACL and a backend of its own
+		other := m{"id": "svc0", "name": "other", "acl": []m{{"name": "decoy_acl"}}, "dictionary": []m{{"name": "decoy_dict"}}, "backend": []m{{"name": "decoy_backend", "address": "decoy.example.com"}},
+			"director": []m{}, "condition": []m{}, "header": []m{}, "response_object": []m{}, "snippet": []m{},
+			"vcl": []m{{"name": "main", "main": true, "content": "sub vcl_recv {\n#FASTLY RECV\n}\n"}}}
+		decoys := []m{
+			{"provider_name": provider, "type": "fastly_service_vcl", "values": other},
+			{"provider_name": provider, "type": "fastly_service_dictionary_items", "index": "decoy_dict", "values": m{"service_id": "svc0", "items": map[string]string{"decoy": "item"}}},
+			{"provider_name": provider, "type": "fastly_service_acl_entries", "index": "decoy_acl", "values": m{"service_id": "svc0", "entry": []m{{"ip": "203.0.113.9", "subnet": "", "negated": false, "comment": ""}}}},
+		}
+		root = m{"resources": append(append(decoys, service), resources...)}
+	default:
+		root = m{"resources": append([]m{service}, resources...)}
+	}
+	b, _ := json.Marshal(m{"planned_values": m{"root_module": root}})
 	return b
 }
 
@@ -641,6 +675,9 @@ func (c *checker) checkAll(sn *snippet.Snippets, items []snippet.Item) {
 			c.viol("EdgeDictionary.name/mismatch", fmt.Sprintf("table named %q, dictionary %q", td.Name.Value, d.Name), it)
 		}
 		want := append([]dictItem{}, d.Items...)
+		if c.path == "remote" && d.WriteOnly {
+			want = nil // the API does not hand out the items of a private dictionary
+		}
 		if c.path == "terraform" {
 			sort.Slice(want, func(i, j int) bool { return want[i].K < want[j].K })
 		}
@@ -974,6 +1011,7 @@ func runSet(oc *fw.Outcome, s resSet) {
 		var sn *snippet.Snippets
 		var items []snippet.Item
 		var err error
+		embedTwice := ""
 		p, msg, st := fw.Guard(func() {
 			var f snippet.Fetcher
 			if path == "terraform" {
@@ -982,7 +1020,16 @@ func runSet(oc *fw.Outcome, s resSet) {
 					err = perr
 					return
 				}
-				f = terraform.NewTerraformFetcher(svcs)
+				tf := terraform.NewTerraformFetcher(svcs)
+				if s.PlanShape == "two-services" {
+					// one fetcher for all services of the plan, pointed to each in turn (cmd/falco/main.go)
+					tf.SetName("other")
+					if osn, oerr := snippet.Fetch(tf); oerr == nil {
+						osn.EmbedSnippets(false) // nolint:errcheck
+					}
+					tf.SetName("service")
+				}
+				f = tf
 			} else if path == "remote" {
 				// the real snippet/remote fetcher against a fake Fastly API
 				saved := http.DefaultTransport
@@ -997,7 +1044,22 @@ func runSet(oc *fw.Outcome, s resSet) {
 				return
 			}
 			items, err = sn.EmbedSnippets(false)
+			if err == nil {
+				// every resource is rendered once: embedding again (the simulator does it for every request)
+				// gives the same items and leaves the scoped snippets as they are
+				before, _ := json.Marshal(sn.ScopedSnippets)
+				items2, err2 := sn.EmbedSnippets(false)
+				after, _ := json.Marshal(sn.ScopedSnippets)
+				b1, _ := json.Marshal(items)
+				b2, _ := json.Marshal(items2)
+				if err2 != nil || !bytes.Equal(before, after) || !bytes.Equal(b1, b2) {
+					embedTwice = fmt.Sprintf("second EmbedSnippets call: err=%v, items equal=%v, scoped snippets %d -> %d bytes", err2, bytes.Equal(b1, b2), len(before), len(after))
+				}
+			}
 		})
+		if embedTwice != "" {
+			c.viol("embed-twice/"+path, "embedding the snippets a second time changes the result: "+embedTwice, nil)
+		}
 		if p {
 			c.viol(fw.PanicKey(st)+"/"+path, "generating VCL from the resources panicked: "+msg+"\n"+fw.TrimStack(st), nil)
 			continue
